@@ -457,6 +457,18 @@ def run(ctx):
             ctx.violation('solves/HERMTOEP', 'raised %r on an admissible system' % e, rep)
         TC = r[1:] * 0.7; TR = 0.5 * (rng.standard_normal(p) + 1j * rng.standard_normal(p)) * abs(r[0]) / (p + 1)
         T0 = complex(np.real(r[0]) * 2)
+        # structured relations between first row, first column and diagonal (the general solver must not assume more than it is given):
+        # Hermitian off-diagonals with a COMPLEX diagonal (a shifted Hermitian matrix), symmetric, Hermitian, triangular
+        rel = ['free', 'conj+complex-diagonal', 'equal+complex-diagonal', 'conj', 'zero-row', 'free+complex-diagonal'][it % 6]
+        if rel.startswith('conj'):
+            TR = np.conj(TC)
+        elif rel.startswith('equal'):
+            TR = TC.copy()
+        elif rel == 'zero-row':
+            TR = np.zeros(p, dtype=complex)
+        if rel.endswith('complex-diagonal'):
+            T0 = T0 * (1 + 0.5j)
+        ctx.count('search/TOEPLITZ/' + rel)
         M = gen_toeplitz(T0, TC, TR)
         if np.linalg.cond(M) < 1e4:
             rep = {'function': 'TOEPLITZ', 'T0': [T0.real.hex(), T0.imag.hex()], 'TC': vlib.hexv(TC), 'TR': vlib.hexv(TR), 'Z': vlib.hexv(Z), 'Zkind': zk}
